@@ -22,7 +22,9 @@ def gen_case(rng, quick):
     d = rng.randint(2, 5)
     fam = rng.choice(["clustered", "clustered", "clustered", "uniform", "duplicates", "ties01", "lattice1d"])
     X = S.gen_matrix(rng, n, d, fam)
-    init = rng.choice([rng.randrange(n), "random"])
+    # negative indices count from the end (numpy semantics): the code stores the negative value in
+    # selected_idx_ and works on item n + i everywhere
+    init = rng.choice([rng.randrange(n), rng.randrange(n), "random", "random", -rng.randint(1, n)])
     # schedule of fits: single cold fit, or a warm chain observing every step
     mode = rng.choice(["cold", "chain1", "chain"])
     total = rng.randint(2, n)
@@ -114,14 +116,17 @@ def run_impl(case):
                 for h in sel.get_distance()]
         seld = [float("inf") if math.isinf(h) else C.as_int_matrix(np.array([h * unscale]), "seld")[0]
                 for h in sel.get_select_distance()]
-        out.append(dict(sel=[int(i) for i in sel.selected_idx_], haus=haus,
+        if isinstance(case["init"], int) and int(sel.selected_idx_[0]) != case["init"]:
+            out.append(dict(error="Initialize", error_msg="selected_idx_[0] = %d, initialize = %d" % (int(sel.selected_idx_[0]), case["init"])))
+            break
+        out.append(dict(sel=[int(i) % n for i in sel.selected_idx_], haus=haus,
                         vloc=[int(v) for v in sel.vlocation_of_idx], seld=seld, k=int(sel.n_selected_)))
     # reference: plain FPS on the same input
     ref = None
     if out and "error" not in out[-1]:
         # plain FPS with the SAME initialisation request (for 'random': the same random_state draw)
         f = FPS(initialize=case["init"], n_to_select=out[-1]["k"]).fit(X)
-        ref = dict(sel=[int(i) for i in f.selected_idx_],
+        ref = dict(sel=[int(i) % n for i in f.selected_idx_],
                    haus=[C.as_int_matrix(np.array([h * unscale]), "haus")[0] for h in f.get_distance()],
                    seld=[float("inf") if math.isinf(h) else C.as_int_matrix(np.array([h * unscale]), "seld")[0]
                          for h in f.get_select_distance()])
@@ -203,6 +208,7 @@ def run(ctx):
         stats["scaled"] = stats.get("scaled", 0) + (c["scale_pow"] != 0)
         stats["warm_frac_or_none"] = stats.get("warm_frac_or_none", 0) + any(f != "int" for f in c["forms"][1:])
         stats["random_init"] = stats.get("random_init", 0) + (c["init"] == "random")
+        stats["negative_init"] = stats.get("negative_init", 0) + (isinstance(c["init"], int) and c["init"] < 0)
     seen, nontrivial = set(), 0
     for c, r in zip(cases, ress):
         if any("error" in s for s in r["stages"]):
@@ -407,6 +413,19 @@ def run_extension(ctx, stats):
         sessions=sum(1 for c in sess if c.get("positional")), guards=sum(1 for c in guards if c.get("positional")),
         thresholds=sum(1 for c in thrs if c.get("positional")), real_valued=sum(1 for c in floats if c.get("positional")),
         large=sum(1 for c in larges if c.get("positional")), signature_matches_documented=sigmsg is None)
+    pres, ycalls, negs = {}, 0, 0
+    for c, r in zip(sess, sres):
+        for cc, rr in zip(c["calls"], r["calls"]):
+            if "error" in rr:
+                continue
+            ds = c["data"][cc["data"]]
+            key = "%s%s" % (ds.get("present", "float64"), "+y" if cc.get("with_y") else "")
+            pres[key] = pres.get(key, 0) + 1
+            ycalls += bool(cc.get("with_y"))
+            negs += cc["kind"] == "cold" and isinstance(cc.get("init"), int) and cc["init"] < 0
+    st["input_presentations_of_successful_calls"] = pres
+    st["calls_with_targets"] = ycalls
+    st["negative_initialize"] = dict(sessions=negs, thresholds=sum(1 for c in thrs if c["init"] < 0))
     st["large_count_sessions"] = dict(
         total=nlarge, warm_past_256=sum(1 for r in lres if len(r["calls"]) == 2 and r["calls"][1].get("k", 0) > 256),
         n=[len(c["data"][0]["X"]) for c in larges], counts=[[cc["nts"] for cc in c["calls"]] for c in larges])
